@@ -17,9 +17,9 @@ import (
 )
 
 var bindTypes = []string{"Plain", "OptNull", "Tuple", "Join", "Pairs", "MapSI", "ListS", "UnionK", "UnionKinded", "UnionSP", "EnumS", "EnumI", "Outer", "Nested",
-	"MapSU", "ListU", "MapSP", "ListT", "MapSN", "ListN", "OptComp", "OptMore", "EnumX", "OptOne", "ListOO", "MapOO"}
+	"MapSU", "ListU", "MapSP", "ListT", "MapSN", "ListN", "OptComp", "OptMore", "UnionKinded2", "ListNP", "AllOpt", "Swap", "EnumX", "OptOne", "ListOO", "MapOO"}
 var genTypes = []string{"Plain", "OptNull", "Tuple", "Join", "MapSI", "ListS", "UnionK", "UnionKinded", "UnionSP", "Outer",
-	"MapSU", "ListU", "MapSP", "ListT", "MapSN", "ListN", "OptComp", "OptMore", "OptOne", "ListOO", "MapOO"}
+	"MapSU", "ListU", "MapSP", "ListT", "MapSN", "ListN", "OptComp", "OptMore", "UnionKinded2", "ListNP", "AllOpt", "Swap", "OptOne", "ListOO", "MapOO"}
 
 func views(engine int, name string) {
 	t := schemas.ByName(name)
